@@ -203,50 +203,70 @@ def is_fatal(r):
     return r in FATAL or r.startswith("fault:") or r.startswith("error:")
 
 
-def run_real(cfg, ops, bell=0, bells=None, schedule="lazy"):
-    """Returns (snapshots, oracle_notes).  A snapshot is {"r","h","ev","u"} as in the model;
-    oracle_notes is a list of (op index, text) where the model-free oracle is violated."""
-    reset_globals()
-    n = cfg["maxq"]
-    ex = AllocTraceExecutor(name="alice")
-    kw = {}
-    if cfg["nv"]:
-        kw["hardware_config"] = NVHardwareConfig(n)
-    if cfg["transp"]:
-        kw["compiler"] = NVSubroutineTranspiler
-    sock = EPRSocket("bob")
-    conn = QConn("alice", executor=ex, max_qubits=n, epr_sockets=[sock], **kw)
-    conn.bell = bell
-    conn.bells = bells
-    conn.schedule = schedule
-    conn.goodness_plan = []
-    conn._goodness, conn._sent, conn._promised, conn._keep = {}, {}, [], []
-    ex.on_request = conn.on_request
-    mm = conn.builder._mem_mgr
-    handles = []
-    seen = set()
-    snaps = []
-    notes = []
+def _flag(b, ty):
+    """the boolean argument `b` written as a value of another type that compares equal:
+    py: bool; int: 0/1; np: numpy.bool_; none: None for False (where the parameter is optional)"""
+    if ty == "int":
+        return int(b)
+    if ty == "np":
+        import numpy
+        return numpy.bool_(b)
+    if ty == "none":
+        return True if b else None
+    return bool(b)
 
-    def collect():
-        for q in mm._active_qubits:
+
+def _num(n, ty):
+    # numbers stay Python ints: a numpy integer as `number`/`max_tries` is refused up front by
+    # the type assertions of Array / the instruction operands (no state is touched)
+    return int(n)
+
+
+class Session:
+    """One connection (with its own executor, socket and handles) of a process."""
+
+    def __init__(self, cfg, name="alice", peer="bob", node_id=0, bell=0, bells=None, schedule="lazy"):
+        n = cfg["maxq"]
+        self.cfg = cfg
+        self.ex = ex = AllocTraceExecutor(name=name, node_id=node_id)
+        kw = {}
+        if cfg["nv"]:
+            kw["hardware_config"] = NVHardwareConfig(n)
+        if cfg["transp"]:
+            kw["compiler"] = NVSubroutineTranspiler
+        self.sock = EPRSocket(peer)
+        self.conn = conn = QConn(name, executor=ex, max_qubits=n, epr_sockets=[self.sock],
+                                 node_ids={name: node_id, peer: 1 - node_id}, **kw)
+        conn.bell = bell
+        conn.bells = bells
+        conn.schedule = schedule
+        conn.goodness_plan = []
+        conn._goodness, conn._sent, conn._promised, conn._keep = {}, {}, [], []
+        ex.on_request = conn.on_request
+        self.mm = mm = conn.builder._mem_mgr
+        self.handles = handles = []
+        self.seen = seen = set()
+        self.open_ctx = None
+        # handles that are created *and* released inside one operation (the placeholders of EPR
+        # loop constructs) are seen at activation time; instance-level wrap, no hook in /repo
+        _activate = mm.activate_qubit
+
+        def activate_qubit(q):
             if id(q) not in seen and not isinstance(q, FutureQubit):
                 seen.add(id(q))
                 handles.append(q)
+            _activate(q)
 
-    # handles that are created *and* released inside one operation (the placeholders of EPR loop
-    # constructs) are seen at activation time; instance-level wrap, no hook in /repo
-    _activate = mm.activate_qubit
+        mm.activate_qubit = activate_qubit
 
-    def activate_qubit(q):
-        if id(q) not in seen and not isinstance(q, FutureQubit):
-            seen.add(id(q))
-            handles.append(q)
-        _activate(q)
+    def _collect(self):
+        for q in self.mm._active_qubits:
+            if id(q) not in self.seen and not isinstance(q, FutureQubit):
+                self.seen.add(id(q))
+                self.handles.append(q)
 
-    mm.activate_qubit = activate_qubit
-
-    def body_fn(body):
+    @staticmethod
+    def _body_fn(body):
         def f(q):
             for g in range(body["g"]):
                 _gate1(q, g)
@@ -256,11 +276,16 @@ def run_real(cfg, ops, bell=0, bells=None, schedule="lazy"):
                 q.free()
         return f
 
-    for idx, op in enumerate(ops):
+    def do(self, idx, op):
+        """executes one operation; returns (snapshot, oracle notes)"""
+        conn, ex, sock, handles, mm = self.conn, self.ex, self.sock, self.handles, self.mm
+        # the connection class keeps the node table of the most recently created connection
         k = op["k"]
+        ty = op.get("ty", "py")
         r = "ok"
         ev_start = len(ex.events)
         released = None
+        notes = []
         try:
             if k in ("gate", "gate2", "meas", "free") and (
                     op["h"] >= len(handles) or (k == "gate2" and op["h2"] >= len(handles))):
@@ -275,7 +300,10 @@ def run_real(cfg, ops, bell=0, bells=None, schedule="lazy"):
             elif k == "meas":
                 q = handles[op["h"]]
                 vid = q.qubit_id
-                q.measure(inplace=op["inplace"])
+                kw = {}
+                if "store" in op:
+                    kw["store_array"] = _flag(op["store"], ty if ty != "none" else "py")
+                q.measure(inplace=_flag(op["inplace"], ty), **kw)
                 if not op["inplace"]:
                     released = vid
             elif k == "free":
@@ -284,29 +312,38 @@ def run_real(cfg, ops, bell=0, bells=None, schedule="lazy"):
                 q.free()
                 released = vid
             elif k == "keep":
-                (sock.recv_keep if op["recv"] else sock.create_keep)(number=op["n"])
+                (sock.recv_keep if op["recv"] else sock.create_keep)(number=_num(op["n"], ty))
                 conn.goodness_plan.append(FAST)
             elif k == "keepr":
                 (sock.recv_keep if op["recv"] else sock.create_keep)(
-                    number=op["n"], min_fidelity_all_at_end=80, max_tries=op["tries"])
+                    number=_num(op["n"], ty), min_fidelity_all_at_end=_num(80, ty), max_tries=_num(op["tries"], ty))
                 conn.goodness_plan += [SLOW] * min(op["fails"], op["tries"]) + ([FAST] if op["fails"] < op["tries"] else [])
             elif k == "seqr":
-                f = body_fn(op["body"])
+                f = self._body_fn(op["body"])
                 (sock.recv_keep if op["recv"] else sock.create_keep)(
-                    number=op["n"], sequential=True, post_routine=lambda c, q, pair: f(q),
-                    min_fidelity_all_at_end=80, max_tries=op["tries"])
+                    number=_num(op["n"], ty), sequential=_flag(True, ty), post_routine=lambda c, q, pair: f(q),
+                    min_fidelity_all_at_end=_num(80, ty), max_tries=_num(op["tries"], ty))
                 conn.goodness_plan += [SLOW] * min(op["fails"], op["tries"]) + ([FAST] if op["fails"] < op["tries"] else [])
             elif k == "seq":
-                f = body_fn(op["body"])
+                f = self._body_fn(op["body"])
                 (sock.recv_keep if op["recv"] else sock.create_keep)(
-                    number=op["n"], sequential=True, post_routine=lambda c, q, pair: f(q))
+                    number=_num(op["n"], ty), sequential=_flag(True, ty), post_routine=lambda c, q, pair: f(q))
                 conn.goodness_plan.append(FAST)
-            elif k == "ctx":
-                f = body_fn(op["body"])
+            elif k in ("ctx", "ctx_open"):
+                f = self._body_fn(op["body"])
                 cm = (sock.recv_context if op["recv"] else sock.create_context)(
-                    number=op["n"], sequential=op["sequential"])
-                with cm as (q, pair):
+                    number=_num(op["n"], ty), sequential=_flag(op["sequential"], ty if ty != "none" else "py"))
+                if k == "ctx":
+                    with cm as (q, pair):
+                        f(q)
+                    conn.goodness_plan.append(FAST)
+                else:
+                    q, pair = cm.__enter__()
+                    self.open_ctx = cm
                     f(q)
+            elif k == "ctx_close":
+                cm, self.open_ctx = self.open_ctx, None
+                cm.__exit__(None, None, None)
                 conn.goodness_plan.append(FAST)
             elif k == "flush":
                 conn.flush()
@@ -332,18 +369,18 @@ def run_real(cfg, ops, bell=0, bells=None, schedule="lazy"):
         except Exception as e:  # noqa: BLE001
             if k in ("flush", "close"):
                 r = classify_fault(e)
-            elif isinstance(e, ValueError) and k in ("keep", "seq", "ctx", "keepr", "seqr"):
+            elif isinstance(e, ValueError) and k in ("keep", "seq", "ctx", "ctx_open", "keepr", "seqr"):
                 r = "valueerror"
             else:
                 r = "error:" + type(e).__name__ + ":" + str(e)[:80]
-        collect()
+        self._collect()
         try:
             hsnap = [[int(q.qubit_id), bool(q.active)] for q in handles]
         except Exception as e:  # noqa: BLE001
             hsnap = "error:" + type(e).__name__
         u = ex.allocated_virtual(conn.app_id) if conn.app_id in ex._qubit_unit_modules else []
         evs = canon_events(ex.events[ev_start:]) if k in ("flush", "close") else []
-        snaps.append({"r": r, "h": hsnap, "ev": evs, "u": u})
+        snap = {"r": r, "h": hsnap, "ev": evs, "u": u}
         # ---- model-free oracle
         if is_fatal(r) and r != "invalid":
             notes.append((idx, r))
@@ -363,9 +400,61 @@ def run_real(cfg, ops, bell=0, bells=None, schedule="lazy"):
         if k == "close" and r == "ok":
             if len(conn.active_qubits) != 0 or u != []:
                 notes.append((idx, "after close: active qubits left"))
-        if is_fatal(r):
+        return snap, notes
+
+
+def run_real(cfg, ops, bell=0, bells=None, schedule="lazy"):
+    """Returns (snapshots, oracle_notes).  A snapshot is {"r","h","ev","u"} as in the model;
+    oracle_notes is a list of (op index, text) where the model-free oracle is violated."""
+    reset_globals()
+    ses = Session(cfg, bell=bell, bells=bells, schedule=schedule)
+    snaps, notes = [], []
+    for idx, op in enumerate(ops):
+        snap, ns = ses.do(idx, op)
+        snaps.append(snap)
+        notes += ns
+        if is_fatal(snap["r"]):
             break
     return snaps, notes
+
+
+def run_real2(cfgs, ops, schedule="lazy"):
+    """Two connections (alice on node 0, bob on node 1; two executors) in one process; every
+    operation carries "c": 0|1.  A context block may be split into `ctx_open` (enter the `with`
+    and build the body) and `ctx_close` (leave it), so that the other connection can act — and
+    open a block of its own — in between.  Returns (snapshots per op, notes)."""
+    reset_globals()
+    ses = [Session(cfgs[0], "alice", "bob", 0, schedule=schedule),
+           Session(cfgs[1], "bob", "alice", 1, schedule=schedule)]
+    snaps, notes = [], []
+    for idx, op in enumerate(ops):
+        snap, ns = ses[op["c"]].do(idx, op)
+        snaps.append(snap)
+        notes += ns
+        if is_fatal(snap["r"]):
+            break
+    return snaps, notes
+
+
+def project(ops, c):
+    """the history of connection c alone, with split context blocks re-joined; returns
+    (ops, for each op its index in the joint history)"""
+    out, at = [], []
+    pend = None
+    for i, o in enumerate(ops):
+        if o["c"] != c:
+            continue
+        o = {k: v for k, v in o.items() if k != "c"}
+        if o["k"] == "ctx_open":
+            pend = o
+        elif o["k"] == "ctx_close":
+            out.append(dict(pend, k="ctx"))
+            at.append(i)
+            pend = None
+        else:
+            out.append(o)
+            at.append(i)
+    return out, at
 
 
 def canon_model(snaps):
@@ -521,6 +610,10 @@ def random_ops(rng, cfg, length, loops=True, over_budget=False):
         elif k in ("measd", "measi"):
             h = rng.choice(lv)
             ops.append({"k": "meas", "h": h, "inplace": k == "measi"})
+            if rng.random() < 0.4:
+                ops[-1]["ty"] = rng.choice(["int", "np", "none"])
+            if rng.random() < 0.3:
+                ops[-1]["store"] = rng.random() < 0.5
             if k == "measd":
                 alive[h] = False
         elif k == "free":
@@ -543,17 +636,23 @@ def random_ops(rng, cfg, length, loops=True, over_budget=False):
             ops.append({"k": "seqr", "recv": rng.random() < 0.5, "n": n, "tries": tries,
                         "fails": rng.randrange(tries),
                         "body": {"g": rng.randrange(3), "c": rng.choice(["meas", "free"])}})
+            if rng.random() < 0.35:
+                ops[-1]["ty"] = rng.choice(["int", "np"])
             alive.extend([False] * n)
         elif k == "seq":
             n = rng.randint(1, 3)
             ops.append({"k": "seq", "recv": rng.random() < 0.5, "n": n,
                         "body": {"g": rng.randrange(3), "c": rng.choice(["meas", "free"])}})
+            if rng.random() < 0.35:
+                ops[-1]["ty"] = rng.choice(["int", "np"])
             alive.extend([False] * n)
         elif k == "ctx":
             sq = rng.random() < 0.5
             n = rng.randint(1, 3 if sq else max(1, min(room, 3)))
             ops.append({"k": "ctx", "recv": rng.random() < 0.5, "n": n, "sequential": sq,
                         "body": {"g": rng.randrange(3), "c": rng.choice(["meas", "free"])}})
+            if rng.random() < 0.35:
+                ops[-1]["ty"] = rng.choice(["int", "np"])
             alive.extend([False] * n)
         elif k == "flush":
             ops.append({"k": "flush"})
@@ -568,3 +667,39 @@ def random_ops(rng, cfg, length, loops=True, over_budget=False):
     if rng.random() < 0.5:
         ops.append({"k": "close"})
     return ops
+
+
+def random_ops2(rng, cfgs, length):
+    """two per-connection histories merged at random; context blocks are split into open/close
+    with probability 1/2 so that the other connection acts (and opens blocks) in between"""
+    streams = []
+    for c in (0, 1):
+        ops = random_ops(rng, cfgs[c], length, loops=True)
+        if rng.random() < 0.7:
+            # a context block right at the start (always inside the budget), later handles shift
+            n = rng.randint(1, 2)
+            for o in ops:
+                for key in ("h", "h2"):
+                    if key in o:
+                        o[key] += n
+            ops.insert(0, {"k": "ctx", "recv": rng.random() < 0.5, "n": n, "sequential": True,
+                           "body": {"g": rng.randrange(2), "c": rng.choice(["meas", "free"])}})
+        out = []
+        for o in ops:
+            if o["k"] == "ctx" and rng.random() < 0.6:
+                out.append(dict(o, k="ctx_open"))
+                out.append({"k": "ctx_close"})
+            else:
+                out.append(o)
+        streams.append(out)
+    merged = []
+    pos = [0, 0]
+    while pos[0] < len(streams[0]) or pos[1] < len(streams[1]):
+        avail = [c for c in (0, 1) if pos[c] < len(streams[c])]
+        # while a block is open on one connection, mostly let the other one act
+        opened = [c for c in avail if pos[c] > 0 and streams[c][pos[c] - 1]["k"] == "ctx_open"]
+        others = [c for c in avail if c not in opened]
+        c = rng.choice(others) if (opened and others and rng.random() < 0.75) else rng.choice(avail)
+        merged.append(dict(streams[c][pos[c]], c=c))
+        pos[c] += 1
+    return merged
